@@ -30,7 +30,7 @@ RULE = ("Hypothesis: matrices (1-6)x(1-6) incl. 1xN / Nx1 of classes small-int, 
         "int64-dtype inputs in their own sub-checks. Oracle: numpy.linalg.svd reference spectrum; shapes U:(m,min(k,m)) "
         "S:(min(k,m,n),) V:(min(k,n),n) with k = n_eigenvecs clamped to max(shape); S>=0 non-increasing and equal to the "
         "leading reference values; U^T U = I, V V^T = I; ||M - U_r diag(S) V_r||_F = ||sigma_ref[r:]|| in both directions; "
-        "tolerances 1e-9 (1e-6 symeig) relative to sigma_1. randomized_svd is held to the exactness clauses only when "
+        "tolerances 1e-9 (symeig: max(1e-6, 50*eps*(sigma_1/smallest above-gap sigma)^2)) relative to sigma_1. randomized_svd is held to the exactness clauses only when "
         "min(k+n_oversamples, max_dim) >= rank(M) (otherwise only shapes, S>=0 sorted, Eckart-Young lower bound). "
         "Sign clause: flipped run vs unflipped run differ only by per-component signs, paired components share the sign, "
         "product and S unchanged, the largest-magnitude entry of each deciding vector (columns of U when u_based, rows of "
